@@ -127,7 +127,10 @@ def extract_iter(
         # (which might be 'nothing', if it's the innermost frame).
         # If our unwrapping didn't produce a frame, then unwrap everything
         # that remains so we can fill out .leaf properly.
-        loops_since_progress = 0
+        # The guard against unwrapping forever counts how deep the current
+        # run of unwrappings has nested without reaching a frame or something
+        # irreducible: chain_start is the depth at which that run began
+        chain_start: Optional[int] = None
         while to_unwrap and (
             len(to_elaborate) < 2 or not isinstance(to_elaborate[0], Frame)
         ):
@@ -147,13 +150,18 @@ def extract_iter(
                     origin = None
                 current = Frame(pyframe=current, origin=origin)
             if _has_type(current, Frame):
-                loops_since_progress = 0
+                chain_start = None
                 to_elaborate.append((current, depth))
                 continue
+            if chain_start is None or depth < chain_start:
+                # (an item that is not a descendant of the previous one: a
+                # sibling of something that unwrapped to nothing, say)
+                chain_start = depth
+            runaway = False
             try:
                 unwrapped = unwrap_stackitem(current)
-                loops_since_progress += 1
-                if loops_since_progress > 100:
+                if depth - chain_start >= 100:
+                    runaway = True
                     raise RuntimeError(
                         f"{current!r} has been unwrapped more than 100 times "
                         f"without reaching something irreducible; probably an "
@@ -170,13 +178,13 @@ def extract_iter(
             except Exception as ex:
                 unwrapped = None
                 save_errors.append(ex)
-                if loops_since_progress > 100:
+                if runaway:
                     # Whatever else is queued came out of the same runaway
                     # unwrapping; we would only trip over it again and again
                     # (without end, if each step produces several items)
                     to_unwrap.clear()
             if unwrapped is None:
-                loops_since_progress = 0
+                chain_start = None
                 to_elaborate.append((current, depth))
                 continue
 
